@@ -16,7 +16,8 @@ det = {'check': prop, 'tier': 'quick', 'exit': ev['exit'],
        'signatures': [s.replace('signature: ', '') for s in ev['signatures']]}
 conf = json.load(open(f'{d}/confirm.json'))
 ok = (conf['demo_on_clean_exit'] == 0 and conf['demo_with_patch_exit'] != 0
-      and conf['patch_applies'] == 0 and conf['import_exit'] == 0)
+      and conf['patch_applies'] == 0 and conf['import_exit'] == 0
+      and conf['tests_exit'] == 0)
 print('CONFIRM', name, 'ok' if ok else 'NOT-OK', conf['tests_summary'],
       '| DETECTED' if det['detected'] else '| MISSED', det['signatures'][:3])
 if ok:
